@@ -7,10 +7,10 @@ use mc_core::{guard, Run, Tally, Violation};
 use pkgsrc::{Pattern, PatternError};
 use serde_json::{json, Value};
 
-const TOK: [&str; 13] = [
-    "a", "b", "A", "-", "1", "*", "?", "[ab]", "[!a]", "[a-c]", "[0-9]", "é", "]",
+const TOK: [&str; 14] = [
+    "a", "b", "A", "-", "1", "*", "?", "[ab]", "[!a]", "[a-c]", "[0-9]", "é", "]", ".",
 ];
-const NAME_CH: [&str; 8] = ["a", "b", "c", "A", "-", "1", "é", "]"];
+const NAME_CH: [&str; 10] = ["a", "b", "c", "A", "-", "1", "é", "]", ".", "/"];
 
 fn all_names(max: usize) -> Vec<String> {
     let mut v = vec![];
@@ -98,12 +98,58 @@ fn check_malformed(t: &mut Tally, p: &str) {
     }
 }
 
+/// The fast-reject must be inert for *every* kind of pattern: comparison and
+/// brace patterns against the composed reference model.
+fn check_other_kind(t: &mut Tally, p: &str, names: &[String]) {
+    use mc_core::model::dewey::LetterWeight;
+    use mc_core::model::pattern as mpat;
+    if mpat::matches(p, "", LetterWeight::Rank).is_none() {
+        return; // does not compile in the model: compile verdicts are C02/C04's business
+    }
+    let pat = match guard(|| Pattern::new(p)) {
+        Ok(Ok(x)) => x,
+        _ => return,
+    };
+    let pc: Vec<char> = p.chars().collect();
+    for n in names {
+        let want = mpat::matches(p, n, LetterWeight::Rank);
+        if want != mpat::matches(p, n, LetterWeight::AsciiLower) {
+            continue; // depends on a letter's weight (C01's known finding)
+        }
+        let Some(want) = want else { continue };
+        t.evals += 1;
+        t.validated += 1;
+        let nc: Vec<char> = n.chars().collect();
+        if want || nc.len() < 2 || (pc.len() >= 2 && nc.len() >= 2 && nc[..2] != pc[..2]) {
+            t.nontrivial += 1;
+        }
+        match guard(|| pat.matches(n)) {
+            Ok(got) if got == want => t.outcome(if want { "other-kind/match" } else { "other-kind/nomatch" }),
+            Ok(got) => t.violation(Violation::new(
+                "other",
+                case(p, Some(n)),
+                json!(want),
+                json!(got),
+                "verdict of a comparison / brace pattern differs from the model (the first-two-characters fast-reject must never change an answer)",
+            )),
+            Err(m) => t.violation(Violation::new("other", case(p, Some(n)), json!(want), json!(format!("panic: {}", m)), "matching panicked")),
+        }
+    }
+}
+
+const OTHER_TOK: [&str; 11] = ["p", "q", "-", ">=", "<", "1", "{", "}", ",", "é", "*"];
+const OTHER_NAME_CH: [&str; 6] = ["p", "q", "-", "1", "é", "2"];
+
 fn replay(doc: &Value) -> Option<Violation> {
     let c = &doc["case"];
     let p = c["pattern"].as_str().unwrap_or("");
     let mut t = Tally::new();
     match doc["kind"].as_str() {
         Some("malformed") => check_malformed(&mut t, p),
+        Some("other") => {
+            let names: Vec<String> = c["name"].as_str().map(|s| vec![s.to_string()]).unwrap_or_default();
+            check_other_kind(&mut t, p, &names);
+        }
         _ => {
             let names: Vec<String> = c["name"].as_str().map(|s| vec![s.to_string()]).unwrap_or_default();
             check(&mut t, p, &names);
@@ -123,6 +169,9 @@ fn main() {
          over 'a b c A - 1 e-acute ]' (so names of length 0, 1, 2 and names differing only in the \
          first or second character are always present); oracle = DP shell-glob matcher / string \
          equality. Every pattern with an unclosed '[' inserted at every position must be Err(Glob). \
+         Comparison and brace patterns (token strings over 'p q - >= < 1 { } , e-acute *') against \
+         every name <= 4 over 'p q - 1 e-acute 2' vs the composed reference model, so that the \
+         fast-reject is shown inert for every kind of pattern. \
          Non-trivial = the pair matches, or the name is shorter than two characters, or it differs \
          from the pattern only within the first two characters (where the fast-reject looks).",
     );
@@ -161,6 +210,27 @@ fn main() {
                 }
             }
         }
+    });
+    // comparison and brace patterns: the shortcut must be inert for them too
+    let other_names: Vec<String> = {
+        let mut v = vec![];
+        let mut pre = vec![];
+        let mut visit = |s: &[usize]| v.push(s.iter().map(|i| OTHER_NAME_CH[*i]).collect::<String>());
+        seqs::dfs(OTHER_NAME_CH.len(), 4, &mut pre, &|_| false, &mut visit);
+        v
+    };
+    let k = run.pick(4, 5);
+    run.bound(format!(
+        "other kinds: all {} token strings of <= {} tokens over {:?} that contain a comparison operator or a brace x all {} names of <= 4 characters over {:?}",
+        seqs::count(OTHER_TOK.len(), k), k, OTHER_TOK, other_names.len(), OTHER_NAME_CH
+    ));
+    seqs::par_seqs(&run, "C05 other kinds", OTHER_TOK.len(), k, 2, |_| false, |s, t| {
+        let p: String = s.iter().map(|i| OTHER_TOK[*i]).collect();
+        if !(p.contains('<') || p.contains('>') || p.contains('{') || p.contains('}')) {
+            return;
+        }
+        t.transitions += other_names.len() as u64;
+        check_other_kind(t, &p, &other_names);
     });
     run.finish();
 }
